@@ -128,17 +128,22 @@ theorem enc_length_lt (codec : Codec) (u : Bytes) (h : u.length < 2 ^ 31 + 2 ^ 1
   have := codec.grow u
   omega
 
-/-- `readNextBlock` on a block written by `flushLocked`, whatever follows it
-    (for every lawful codec, every checksum, every value of the code facts). -/
-theorem readNextBlock_encodeBlock (cfg : Cfg) (codec : Codec) (crc : Checksum) (es : List Entry)
-    (rest : Bytes) (hg : GoodBlock es) :
-    readNextBlock cfg codec.toDecoder crc (encodeBlock codec crc es ++ rest) = .ok es rest := by
-  have hu : (encodeEntries es).length < 2 ^ 31 + 2 ^ 17 := by rw [encodeEntries_length]; exact hg.size
+/-- result of `readNextBlock` in terms of the entry loop's result -/
+def blockResOf (r : Except Err (List Entry)) (rest : Bytes) : BlockRes :=
+  match r with
+  | .error e => .err e
+  | .ok es => .ok es rest
+
+/-- `readNextBlock` on a block written by `flushLocked` from *any* entries (encodable or not):
+    header, checksum, decompression and length check all pass; what remains is the entry loop. -/
+theorem readNextBlock_encodeBlock_gen (cfg : Cfg) (codec : Codec) (crc : Checksum) (es : List Entry)
+    (rest : Bytes) (hcount : es.length < 2 ^ 16) (hsize : sizeSum es < 2 ^ 31 + 2 ^ 17) :
+    readNextBlock cfg codec.toDecoder crc (encodeBlock codec crc es ++ rest)
+      = blockResOf (parseEntries es.length (encodeEntries es)) rest := by
+  have hu : (encodeEntries es).length < 2 ^ 31 + 2 ^ 17 := by rw [encodeEntries_length]; exact hsize
   have hc : (codec.enc (encodeEntries es)).length < 2 ^ 32 := enc_length_lt codec _ hu
   have hcrc : (crc (codec.enc (encodeEntries es))).toNat < 2 ^ 32 := UInt32.toNat_lt _
   have hdec := codec.law (encodeEntries es)
-  have hpe := parseEntries_encodeEntries es [] hg.enc
-  rw [List.append_nil] at hpe
   generalize hcdef : codec.enc (encodeEntries es) = c at hc hcrc hdec
   have e0 : encodeBlock codec crc es ++ rest
       = encodeBlockHeader ⟨c.length, (encodeEntries es).length, es.length, (crc c).toNat, 0⟩ ++ (c ++ rest) := by
@@ -149,18 +154,41 @@ theorem readNextBlock_encodeBlock (cfg : Cfg) (codec : Codec) (crc : Checksum) (
   rw [e0]
   rw [if_neg (by simp [encodeBlockHeader_length])]
   simp only
-  rw [decodeBlockHeader_encode _ _ hc (by simp; omega) hg.count hcrc (by simp)]
+  rw [decodeBlockHeader_encode _ _ hc (by simp; omega) hcount hcrc (by simp)]
   rw [drop_append_len _ _ 16 (encodeBlockHeader_length _)]
   simp only [hcond, Bool.false_eq_true, if_false]
   rw [if_neg (by simp)]
   rw [take_append_len _ _ _ rfl, drop_append_len _ _ _ rfl]
   have hpb : parseBlock cfg codec.toDecoder crc
-      ⟨c.length, (encodeEntries es).length, es.length, (crc c).toNat, 0⟩ c = .ok es := by
+      ⟨c.length, (encodeEntries es).length, es.length, (crc c).toNat, 0⟩ c
+        = parseEntries es.length (encodeEntries es) := by
     unfold parseBlock
     simp only [bne_self_eq_false, Bool.and_false, Bool.false_eq_true, if_false, hdec]
     have : (encodeEntries es).length % 2 ^ 32 = (encodeEntries es).length := Nat.mod_eq_of_lt (by omega)
     simp only [this, bne_self_eq_false, Bool.and_false, Bool.false_eq_true, if_false]
-    exact hpe
   rw [hpb]
+  cases parseEntries es.length (encodeEntries es) <;> rfl
+
+/-- `readNextBlock` on a block written by `flushLocked`, whatever follows it
+    (for every lawful codec, every checksum, every value of the code facts). -/
+theorem readNextBlock_encodeBlock (cfg : Cfg) (codec : Codec) (crc : Checksum) (es : List Entry)
+    (rest : Bytes) (hg : GoodBlock es) :
+    readNextBlock cfg codec.toDecoder crc (encodeBlock codec crc es ++ rest) = .ok es rest := by
+  rw [readNextBlock_encodeBlock_gen cfg codec crc es rest hg.count hg.size]
+  have hpe := parseEntries_encodeEntries es [] hg.enc
+  rw [List.append_nil] at hpe
+  rw [hpe]; rfl
+
+/-- a zero key-length field is always rejected: this is what an empty key *and* a 65536-byte key
+    look like on disk -/
+theorem decodeEntry_zeroKeyLen (op : UInt8) (rest : Bytes) (h : 4 ≤ rest.length) :
+    decodeEntry (op :: 0 :: 0 :: rest) = .error .emptyKey := by
+  unfold decodeEntry
+  rw [if_neg (by simp; omega)]
+  simp only [List.take_succ_cons, List.take_zero, unle]
+  have : (0 : UInt8).toNat = 0 := rfl
+  simp only [this]
+  rw [if_neg (by simp; omega)]
+  simp
 
 end Hv.Storage
